@@ -322,13 +322,27 @@ func c37Gen(g *Gen) {
 			switch {
 			case x < 16:
 				t := c37UnaryTokens(r)
-				lines = append(lines, strings.Join(append([]string{"P", mode, "U", t[0], t[1], XS(rid)}, t[2:]...), " "))
+				kind := "U"
+				if r.Chance(8) {
+					kind = "U@" // the handler cancels the serve context
+				}
+				lines = append(lines, strings.Join(append([]string{"P", mode, kind, t[0], t[1], XS(rid)}, t[2:]...), " "))
+				if r.Chance(3) { // a session whose context is cancelled before Serve starts
+					lines = append(lines, "H "+mode+" X", "P "+mode+" DEAD", "P "+Pick(r, c37Modes)+" DEAD")
+				}
 			case x < 33:
 				method := Pick(r, famStreamMethods)
 				s, producer := c06Script(r, method)
 				variant, in := c06Inputs(r, producer)
 				l := c06Line(method, famRandLevel(r), rid, s, variant, in)
-				lines = append(lines, "P "+mode+" S "+strings.TrimPrefix(l, "stream "))
+				kind := "S"
+				if r.Chance(22) { // the serve context is cancelled during turn k (maybe one never reached)
+					kind = "S@" + strconv.Itoa(r.Intn(len(in)+2))
+				}
+				lines = append(lines, "P "+mode+" "+kind+" "+strings.TrimPrefix(l, "stream "))
+				if kind != "S" && r.Chance(50) { // what the client sends next on the old session is never served
+					lines = append(lines, "H "+mode+" X")
+				}
 			case x < 37:
 				lines = append(lines, Pick(r, []string{"P", "H"})+" "+mode+" X")
 			case x < 41:
@@ -461,7 +475,8 @@ func c37Canon(streams []famStream) string {
 }
 
 // pipe session: calls[i] = (request id, input bytes); returns one response per call.
-func (s *c37Side) pipeSession(c *Case, rids []string, modes []string, inputs [][]byte) []c37Resp {
+func (s *c37Side) pipeSession(c *Case, rids []string, modes []string, inputs [][]byte, kinds []string) []c37Resp {
+	dead := len(kinds) > 0 && kinds[0] == "pipe-dead"
 	var all []byte
 	for i := range inputs {
 		if s.hook != nil {
@@ -470,7 +485,7 @@ func (s *c37Side) pipeSession(c *Case, rids []string, modes []string, inputs [][
 		all = append(all, inputs[i]...)
 		all = append(all, s.req("u_i64", "0 ret "+c06ProbeVal, "", "probe-"+rids[i], false)...)
 	}
-	out, p := famServePipe(s.srv, all)
+	out, p := famServePipeCtx(s.srv, all, dead)
 	if p != nil {
 		c.Oracle("hook-panic-escaped-pipe", fmt.Sprintf("Serve panicked: %v", p))
 	}
@@ -480,7 +495,17 @@ func (s *c37Side) pipeSession(c *Case, rids []string, modes []string, inputs [][
 	for i := range inputs {
 		var mine []famStream
 		found := false
-		for pos < len(streams) {
+		if dead { // nothing may be served on a context cancelled before Serve started
+			resps[i].canon = fmt.Sprintf("dead streams=%d", len(streams))
+			if s.hook != nil {
+				resps[i].events = s.hook.take(rids[i], false)
+			}
+			continue
+		}
+		if strings.HasSuffix(kinds[i], "-cancelled") { // the serve loop returns after this call: no probe answer
+			mine, pos, found = streams[pos:], len(streams), true
+		}
+		for !found && pos < len(streams) {
 			st := streams[pos]
 			pos++
 			if len(st.Batches) == 1 && st.Batches[0].Val == c06ProbeVal {
@@ -584,6 +609,9 @@ func c37Exec(c *Case) {
 		return
 	}
 	famResetShared()
+	famAbortMu.Lock()
+	famAbortTurn, famAbortRID = map[string]int{}, map[string]bool{}
+	famAbortMu.Unlock()
 	h := strings.Fields(c.Lines[0])
 	limit, cfg := 2, "plain"
 	if len(h) == 3 && h[0] == "hist" {
@@ -613,6 +641,14 @@ func c37Exec(c *Case) {
 			if hk.note == "out-of-frame" {
 				c.Oracle("session-out-of-frame", fmt.Sprintf("%q: pipe session lost framing", call.line))
 			}
+			return
+		}
+		if kindName == "pipe-dead" {
+			c.Out(modelLine, "dead")
+			if len(hk.events) > 0 || hk.canon != "dead streams=0" || pl.canon != "dead streams=0" {
+				c.Oracle("dispatch-after-serve-cancelled", fmt.Sprintf("%q: events %v, %s / %s", call.line, hk.events, hk.canon, pl.canon))
+			}
+			c.Stat("call-" + kindName)
 			return
 		}
 		ev := "-"
@@ -647,18 +683,24 @@ func c37Exec(c *Case) {
 				if !ok {
 					break
 				}
+				if len(seg) > 0 && (kind == "pipe-dead") != (kinds[0] == "pipe-dead") {
+					break // a dead session holds dead calls only
+				}
 				rids, modes, models, kinds = append(rids, rid), append(modes, cl.mode), append(models, model), append(kinds, kind)
 				inputs = append(inputs, input)
 				seg = append(seg, cl)
 				j++
+				if strings.HasSuffix(kind, "-cancelled") {
+					break // the serve context is gone: the session ends with this call
+				}
 			}
 			if len(seg) == 0 {
 				c.Out(call.line, "err:bad-script")
 				i++
 				continue
 			}
-			hr := hooked.pipeSession(c, rids, modes, inputs)
-			pr := plain.pipeSession(c, rids, modes, inputs)
+			hr := hooked.pipeSession(c, rids, modes, inputs, kinds)
+			pr := plain.pipeSession(c, rids, modes, inputs, kinds)
 			for k := range seg {
 				emit(seg[k], models[k], hr[k], pr[k], kinds[k], false)
 			}
@@ -675,6 +717,41 @@ func c37Exec(c *Case) {
 
 // c37PipeCall builds the model line and the request bytes of one pipe call.
 func c37PipeCall(side *c37Side, cl c37Call, rid string) (model string, input []byte, kind string, ok bool) {
+	abortTurn := -1
+	if strings.HasPrefix(cl.kind, "S@") {
+		n, err := strconv.Atoi(cl.kind[2:])
+		if err != nil || n < 0 {
+			return "", nil, "", false
+		}
+		abortTurn = n
+	}
+	switch {
+	case abortTurn >= 0:
+		cl2 := cl
+		cl2.kind = "S"
+		model, input, _, ok = c37PipeCall(side, cl2, rid)
+		if !ok {
+			return "", nil, "", false
+		}
+		// the stream id is the first word of the script parameter: find it back in what was registered last
+		famAbortMu.Lock()
+		famAbortTurn[famLastSID()] = abortTurn
+		famAbortMu.Unlock()
+		return strings.Replace(model, " S ", " "+cl.kind+" ", 1), input, "pipe-stream-cancelled", true
+	case cl.kind == "U@":
+		cl2 := cl
+		cl2.kind = "U"
+		model, input, _, ok = c37PipeCall(side, cl2, rid)
+		if !ok {
+			return "", nil, "", false
+		}
+		famAbortMu.Lock()
+		famAbortRID[rid] = true
+		famAbortMu.Unlock()
+		return strings.Replace(model, " U ", " U@ ", 1), input, "pipe-unary-cancelled", true
+	case cl.kind == "DEAD":
+		return "P " + cl.mode + " DEAD", side.req("u_i64", "0 ret i:1", "", rid, false), "pipe-dead", true
+	}
 	switch cl.kind {
 	case "X":
 		return "P " + cl.mode + " X", side.req("no_such_method", "x", "", rid, false), "pipe-unknown", true
